@@ -14,7 +14,7 @@ RULE = ("case = shape x random initial value x history of 4..40 (path, op) steps
 
 
 def gen_cases(rng, tier):
-    return B.gen_ops_cases(rng, tier, 1500, 40000)
+    return B.gen_ops_cases(rng, tier, 1500, 12000)
 
 
 def predicate(c, obs):
